@@ -19,7 +19,7 @@ RULE = ("cases = synthetic PeleLMeX checkpoints (1-3 levels, anisotropic and iso
 ASSUMPTIONS = ["checkpoint layout as in test_assets/example_chk_3d", "pool shim M1 with shuffled schedules",
                "cell sizes are derived as (hi-lo)/N like the tool does (the checkpoint does not store them)"]
 REQUIRED_OBS = {"conversions": 40, "with_reactions": 10, "with_gradp": 20, "floored": 15,
-                "anisotropic": 10, "default_output": 8, "ref_plotfile": 10}
+                "anisotropic": 10, "default_output": 8, "ref_plotfile": 10, "second_checkpoint_same_process": 10}
 TIMEOUT = {"quick": 400, "thorough": 2000}
 SPECIES = ["H2", "O2", "N2", "H2O", "CH2(S)"]
 
@@ -101,10 +101,23 @@ def expect(m, species, gradp, reactions, floor):
 
 
 def run_case(case, work, rec):
+    run_one(case, work, rec, case["gen"], "chk00005", 8)
+    # a second, different checkpoint converted in the SAME process (another species count, ghost width
+    # and level count): nothing may be carried over from the first conversions
+    g2 = dict(case["gen"])
+    g2["seed"] = g2["seed"] + 1
+    g2["nspecies"] = {1: 3, 2: 4, 3: 1, 4: 2}[case["gen"]["nspecies"]]
+    g2["nghost"] = 1 + case["gen"]["nghost"] % 3
+    rec.count("second_checkpoint_same_process")
+    run_one(case, os.path.join(work, "second"), rec, g2, "chk00042", 3)
+
+
+def run_one(case, work, rec, gparams, chkname, nconf):
     from amr_kitchen.chk2plt.chk2plt import chk2plt
-    rng = random.Random(case["sel_seed"])
-    g = dict(case["gen"])
-    chk = os.path.join(work, "chk00005")
+    os.makedirs(work, exist_ok=True)
+    rng = random.Random(case["sel_seed"] + len(chkname) + nconf)
+    g = dict(gparams)
+    chk = os.path.join(work, chkname)
     m = chkgen.gen_chk(path=chk, **g)
     digest = common.sha(g)
     species = SPECIES[:m.nspecies]
@@ -129,9 +142,11 @@ def run_case(case, work, rec):
     configs.append((True, True, False, "refY", "default"))
     rng.shuffle(configs)
     h0 = tree_hash(chk)
-    for ci, (gradp, reactions, floor, src, outform) in enumerate(configs[:8]):
+    if nconf < 8:
+        configs = [c for c in configs if c[2]] + [c for c in configs if not c[2]]     # flooring first
+    for ci, (gradp, reactions, floor, src, outform) in enumerate(configs[:nconf]):
         out = os.path.join(work, f"pltout{ci}") if outform == "explicit" else None
-        expected_out = out or os.path.join(work, "plt00005")
+        expected_out = out or os.path.join(work, chkname.replace("chk", "plt"))
         key = (digest, gradp, reactions, floor, src, outform)
         descr = (f"gradp={gradp} species_reactions={reactions} floor_massfracs={floor} species from {src} "
                  f"output={outform} nghost={m.nghost} anisotropic={aniso} time={m.time!r}")
